@@ -30,6 +30,9 @@ type msg struct {
 	Kind string `json:"kind,omitempty"` // how the payload was made: wf | trunc | extend | setcount | flip | zero | raw
 	Dyn  string `json:"dyn,omitempty"`  // resolved at execution: pong_echo | xauth_sign | ver_ournonce
 	Tr   bool   `json:"trusted,omitempty"`
+	// Expect "block_accepted": this block message is the genuine copy of a wanted block and has to be taken
+	// (extra oracle on behalf of C09, see checkAcceptedBlock)
+	Expect string `json:"expect,omitempty"`
 	// Run mode framing
 	Frame string `json:"frame,omitempty"` // ok | badsum | enc | enc_garbage | lie_more | lie_less | lie_big | bad_magic | cmd_garbage | partial
 	Lie   uint32 `json:"lie,omitempty"`
@@ -219,6 +222,7 @@ type G struct {
 	txs     []*wire.Tx   // transactions sent earlier in this case
 	follow  []msg        // follow-ups made plausible by earlier messages (block for a header, blocktxn ...)
 	spentAt map[int]bool // indices of e.spend already used by a generated transaction
+	tags    []string     // shapes used by the generators of this case (for the histogram)
 }
 
 func newG(t *rapid.T) *G { return &G{t: t, e: getEnv(), spentAt: map[int]bool{}} }
@@ -631,7 +635,106 @@ func witnessCommitment(bl *wire.Block) []byte {
 
 // block makes a block.  Returns the block and whether header+body are expected to pass
 // PreCheckBlock/PostCheckBlock (not used by the oracle, only for the histogram).
+// witness-commitment shapes of a block body (BIP141): what PostCheckBlock's commitment rules see.  The
+// ones after "two_commits_last_ok" break a rule.
+var wcShapes = []string{"ok_commit", "two_commits_last_ok", "commit_short_script",
+	"commit_no_witness", "nonce_31", "nonce_33", "nonce_two_items", "nonce_empty_item", "cb_empty_stack_with_witness_txs",
+	"commit_mismatch", "witness_no_commit", "two_commits_last_bad"}
+
+func wcBreaksRule(shape string) bool {
+	return shape != "ok_commit" && shape != "two_commits_last_ok" && shape != "commit_short_script"
+}
+
+// wcBlock makes a block that is fine up to PostCheckBlock's witness-commitment rules (acceptable header on
+// the tip or on an announced header, coinbase with the right BIP34 push, clean transactions, right merkle
+// root) and gives its body one of the commitment shapes.
+func (g *G) wcBlock() (*wire.Block, uint32, bool) {
+	e := g.e
+	shape := pick(g, wcShapes)
+	g.tags = append(g.tags, "wc/"+shape)
+	prev, pheight, ptime := e.hashes[baseBlocks], uint32(baseBlocks), uint32(genesisTime+600*baseBlocks)
+	if len(g.hdrs) > 0 && g.chance(30) {
+		h := g.hdrs[g.n(0, len(g.hdrs)-1, "wcparent")]
+		prev, pheight, ptime = h.hdr.Hash(), h.height, h.hdr.Time
+	}
+	height := pheight + 1
+	witnessTxs := shape == "witness_no_commit" || shape == "cb_empty_stack_with_witness_txs"
+	if shape != "commit_no_witness" && g.chance(40) {
+		witnessTxs = true
+	}
+	var txs []*wire.Tx
+	for i, n := 0, g.n(0, 2, "wcntx"); i < n || (witnessTxs && len(txs) == 0); i++ {
+		wantWit := witnessTxs && len(txs) == 0
+		var sp spendable
+		for try := 0; ; try++ {
+			j := g.k(len(e.spend))
+			if !g.spentAt[j] && (e.spend[j].Kind == "p2wsh") == wantWit || try > 200 {
+				g.spentAt[j] = true
+				sp = e.spend[j]
+				break
+			}
+		}
+		in := wire.TxIn{PrevHash: sp.TxID, PrevIndex: sp.Vout, Sequence: 0xffffffff}
+		switch sp.Kind {
+		case "p2sh":
+			in.ScriptSig = []byte{0x01, 0x51}
+		case "p2wsh":
+			in.Witness = [][]byte{{0x51}}
+		}
+		txs = append(txs, &wire.Tx{Version: 2, In: []wire.TxIn{in}, Out: []wire.TxOut{{Value: sp.Value - 2000, PkScript: []byte{0x51}}}})
+	}
+	cb := coinbaseTx(height, g.bytesN(0, 6))
+	bl := &wire.Block{Txs: append([]*wire.Tx{cb}, txs...)}
+	commit := witnessCommitment(bl) // for the all-zero 32-byte nonce
+	junk := append([]byte{0x6a, 0x24, 0xaa, 0x21, 0xa9, 0xed}, g.bytesN(32, 32)...)
+	nonce := [][]byte{make([]byte, 32)}
+	switch shape {
+	case "ok_commit":
+		cb.Out = append(cb.Out, wire.TxOut{PkScript: commit})
+	case "two_commits_last_ok":
+		cb.Out = append(cb.Out, wire.TxOut{PkScript: junk}, wire.TxOut{PkScript: commit})
+	case "two_commits_last_bad":
+		cb.Out = append(cb.Out, wire.TxOut{PkScript: commit}, wire.TxOut{PkScript: junk})
+	case "commit_short_script":
+		cb.Out = append(cb.Out, wire.TxOut{PkScript: commit[:37]})
+		if witnessTxs {
+			cb.Out = append(cb.Out, wire.TxOut{PkScript: commit})
+		}
+	case "commit_no_witness":
+		cb.Out = append(cb.Out, wire.TxOut{PkScript: commit})
+		nonce = nil // the coinbase goes out in the old format: no marker, no flag, no witness
+	case "nonce_31":
+		cb.Out = append(cb.Out, wire.TxOut{PkScript: commit})
+		nonce = [][]byte{make([]byte, 31)}
+	case "nonce_33":
+		cb.Out = append(cb.Out, wire.TxOut{PkScript: commit})
+		nonce = [][]byte{make([]byte, 33)}
+	case "nonce_two_items":
+		cb.Out = append(cb.Out, wire.TxOut{PkScript: commit})
+		nonce = [][]byte{make([]byte, 32), make([]byte, 32)}
+	case "nonce_empty_item":
+		cb.Out = append(cb.Out, wire.TxOut{PkScript: commit})
+		nonce = [][]byte{{}}
+	case "cb_empty_stack_with_witness_txs":
+		cb.Out = append(cb.Out, wire.TxOut{PkScript: commit})
+		nonce = nil
+	case "commit_mismatch":
+		cb.Out = append(cb.Out, wire.TxOut{PkScript: junk})
+	case "witness_no_commit":
+		nonce = nil
+	}
+	cb.In[0].Witness = nonce
+	bl.Header = wire.Header{Version: blockVersion, PrevBlock: prev, Time: ptime + 600, Bits: powBits}
+	bl.Header.MerkleRoot, _ = bl.TxMerkleRoot()
+	mine(&bl.Header)
+	g.hdrs = append(g.hdrs, knownHdr{bl.Header, height})
+	return bl, height, !wcBreaksRule(shape)
+}
+
 func (g *G) block() (*wire.Block, uint32, bool) {
+	if g.chance(30) {
+		return g.wcBlock()
+	}
 	ntx := g.n(0, 3, "nblktx")
 	var txs []*wire.Tx
 	for i := 0; i < ntx; i++ {
@@ -983,6 +1086,9 @@ func (g *G) command() string {
 // these in-progress hashes (right hash, right hash with junk, cut short).
 func (g *G) downloadScenario() []msg {
 	k := g.n(1, 3, "dlblocks")
+	if g.chance(2) {
+		k = g.n(500, 560, "dlmany") // more than one peer may have in progress (MAX_PEERS_BLOCKS_IN_PROGRESS = 500)
+	}
 	prev, height, tm := g.e.hashes[baseBlocks], uint32(baseBlocks), uint32(genesisTime+600*baseBlocks)
 	var hp built
 	hp.cs(uint64(k))
@@ -997,7 +1103,10 @@ func (g *G) downloadScenario() []msg {
 		blocks = append(blocks, bl)
 	}
 	out := []msg{{Cmd: "headers", Pl: hex.EncodeToString(hp.b.Bytes()), Kind: "wf"}, {Cmd: "headers", Pl: "00", Kind: "wf"}, {Cmd: "#tick"}}
-	for _, bl := range blocks {
+	for bi, bl := range blocks {
+		if bi >= 3 {
+			break
+		}
 		h := bl.Header.Hash()
 		raw := bl.Serialize(true)
 		var q built
@@ -1033,6 +1142,67 @@ func (g *G) downloadScenario() []msg {
 			g.follow = append(g.follow, cands[g.k(len(cands))])
 		}
 	}
+	return out
+}
+
+// corruptCopyScenario (serves C09's clause "a block's transaction list, ids and weight are those of the
+// bytes given", in the one caller the C09 check cannot reach): a block with 2..4 transactions is announced
+// (headers) and therefore wanted; peer A delivers a copy with the right header and a corrupted body (one
+// transaction dropped / one appended / only the count changed - the merkle root no longer fits) and is
+// banned; peer B (the next connection of the case) then delivers the genuine block.
+func (g *G) corruptCopyScenario() []msg {
+	e := g.e
+	var txs []*wire.Tx
+	for i, n := 0, g.n(1, 3, "ngenuine"); i < n; i++ {
+		var sp spendable
+		for {
+			j := g.k(len(e.spend))
+			if !g.spentAt[j] && e.spend[j].Kind != "p2wsh" {
+				g.spentAt[j] = true
+				sp = e.spend[j]
+				break
+			}
+		}
+		in := wire.TxIn{PrevHash: sp.TxID, PrevIndex: sp.Vout, Sequence: 0xffffffff}
+		if sp.Kind == "p2sh" {
+			in.ScriptSig = []byte{0x01, 0x51}
+		}
+		txs = append(txs, &wire.Tx{Version: 2, In: []wire.TxIn{in}, Out: []wire.TxOut{{Value: sp.Value - uint64(1000+g.n(0, 5000, "fee")), PkScript: g.script()}}})
+	}
+	bl := buildBlock(e.hashes[baseBlocks], baseBlocks+1, genesisTime+600*(baseBlocks+1), []byte{0xc9, byte(g.k(256))}, txs)
+	genuine := bl.Serialize(true)
+	var hp built
+	hp.cs(1)
+	hp.w(bl.Header.Serialize(), []byte{0})
+	// the corrupt copy: same header, different transaction count
+	cp := &wire.Block{Header: bl.Header, Txs: append([]*wire.Tx{}, bl.Txs...)}
+	corrupt := genuine
+	how := pick(g, []string{"drop_tx", "append_tx", "count_minus", "count_plus"})
+	switch how {
+	case "drop_tx":
+		cp.Txs = cp.Txs[:len(cp.Txs)-1]
+		corrupt = cp.Serialize(true)
+	case "append_tx":
+		extra := cp.Txs[len(cp.Txs)-1].Copy()
+		extra.LockTime = uint32(g.n(1, 100, "extralock"))
+		cp.Txs = append(cp.Txs, extra)
+		corrupt = cp.Serialize(true)
+	case "count_minus":
+		corrupt = append([]byte{}, genuine...)
+		corrupt[80]--
+	case "count_plus":
+		corrupt = append([]byte{}, genuine...)
+		corrupt[80]++
+	}
+	out := []msg{{Cmd: "headers", Pl: hex.EncodeToString(hp.b.Bytes()), Kind: "wf"}}
+	if g.chance(30) {
+		out = append(out, msg{Cmd: "#tick"})
+	}
+	out = append(out, msg{Cmd: "block", Pl: hex.EncodeToString(corrupt), Kind: "corrupt_copy/" + how})
+	if g.chance(30) {
+		out = append(out, msg{Cmd: "ping", Pl: "0102030405060708", Kind: "wf"})
+	}
+	out = append(out, msg{Cmd: "block", Pl: hex.EncodeToString(genuine), Kind: "wf", Expect: "block_accepted"})
 	return out
 }
 
